@@ -5,14 +5,17 @@
  *              (KSI_RuleVerificationResult_dup, _free, _clean), over the REAL list.c
  *   H_vctx     KSI_VerificationContext_init, KSI_VerificationContext_clean (VerificationTempData_clear)
  * Real files included unmodified: policy.c, list.c, compatibility.c.  Plain mode; every allocation may fail, in every
- * combination (--malloc-may-fail --malloc-fail-null); live blocks counted by the funnels of env/c19_alloc_env.h.
+ * combination (--malloc-may-fail --malloc-fail-null); live blocks counted by the funnels of env/c19_oom2_alloc.h.
  * (The struct KSI_VerificationContext has no setter functions in this version of the SDK: its fields are public and
  * are assigned by the caller; init / clean are the whole API.) */
 #include "env/common.h"
-#include "env/c19_alloc_env.h"
 #include <string.h>
 #include "policy.h"
 #include "impl/policy_impl.h"
+/* every block size the functions under test can ask for (closed, checked case split - env/c19_oom2_alloc.h) */
+#define OOM2_MALLOC_SIZES X(1) X(2) X(3) X(4) X(24) X(96) X(sizeof(struct KSI_Policy_st)) X(sizeof(KSI_RuleVerificationResult)) X(sizeof(KSI_PolicyVerificationResult))
+#define OOM2_CALLOC_COUNTS X(10)
+#include "env/c19_oom2_alloc.h"
 #include "compatibility.c"
 #include "list.c"
 
